@@ -27,6 +27,8 @@ def main():
     ap.add_argument('--replay')
     a = ap.parse_args()
     seed = int(os.environ.get('VERIF_SEED', '0') or 0)
+    if a.replay:
+        os.environ['VERIF_REPLAY'] = '1'
     if a.prop not in MODULES:
         print('no check for %s' % a.prop, file=sys.stderr)
         return 2
